@@ -203,6 +203,10 @@ class C03(Prop):
             rs = [[], ['D0'] * (n + 2), ['I', 'D1', 'I', 'I', 'D0'] * (n // 2 + 2)][i % 3]
             pol = ['std', 'plus.1.100000', 'du.5'][(i // 2) % 3]
             out.append((cap, rs, pol))
+        # a buffer that holds the whole input and one spare byte (which shows that the input has ended) needs
+        # no growth at all: a policy refusing every request "permits the needed size" there
+        out.append((max(3, n + 1), [], 'ref'))
+        out.append((max(3, n + 2), ['D0'] * (n + 2), 'ref'))
         return out
 
     def cases(self, tier, rng):
@@ -476,6 +480,32 @@ class C17(Prop):
         for f in self.fmts:
             out += gen.structured(f, rng, n, malformed_share=1)
             out += gen.exhaustive(f, 5 if tier == 'quick' else 7)
+            # "identically ... " also when the error is reached through an unusual history: after a source failure in the
+            # first call and a repeated call (leading blank lines longer than the buffer), after a failing source seek,
+            # after seeks to earlier records, through record sets
+            for _ in range(n // 3):
+                cap = rng.choice([3, 4, 5, 7, 8, 13, 16, 32])
+                text = gen.fasta_file(rng, cap) if f == 'fa' else gen.fastq_file(rng, cap)
+                if f == 'fa' and rng.chance(1, 2):
+                    text = rng.choice([b'\n', b'\r\n']) * rng.range(1, 3 * cap) + rng.choice([b'x', b'', b'A>']) + text
+                else:
+                    text = gen.malform(rng, f, text)
+                k = gen.n_items_bound(f, text)
+                pos = gen.record_positions(f, text)
+                kind = rng.below(3)
+                rs, ss = gen.rnd_chunking(rng, len(text)), None
+                ops = ['N', 'P'] * k
+                if kind == 0:
+                    j = rng.below(len(text) // cap + 3)
+                    rs = (rs[:j] if rs else ['D9999'] * j) + ['F%d' % rng.range(1, 8)]
+                    ops = ['N', 'N'] + ops
+                elif kind == 1 and pos:
+                    j = rng.range(1, len(ops))
+                    ops = ops[:j] + [gen.kseek(rng, pos)] + ops[j:] + ['N', 'N']
+                    ss = ['F%d' % rng.range(1, 8)] if rng.chance(1, 2) else ['ok', 'F%d' % rng.range(1, 8)]
+                else:
+                    ops = [rng.choice(['N', 'S0', 'E0.2', 'O']) for _ in range(k + 2)]
+                out.append(gen.mkcase(f, cap, text, rs, ss, gen.rnd_policy(rng), ops))
         return out
 
     def project(self, pl):
@@ -696,7 +726,10 @@ class C10(Prop):
             if rng.chance(1, 3):
                 L = w * rng.range(0, 4)                 # exact multiples of the width
             seq = rnd_seq(rng, L)
-            out.append('wr %s %s %s %d %s' % (gen.hx(rnd_whead(rng)), gen.hx(seq), gen.hx(rnd_seq(rng, L)), w,
+            ws = str(w)
+            if rng.chance(1, 12):
+                ws = rng.choice(['M', 'H'])        # usize::MAX ("never wrap") / isize::MAX
+            out.append('wr %s %s %s %s %s' % (gen.hx(rnd_whead(rng)), gen.hx(seq), gen.hx(rnd_seq(rng, L)), ws,
                                               gen.lst([str(c) for c in chunk_lens(rng, L)])))
         # exhaustive: short sequences x widths x all splits into <= 3 chunks (incl. empty ones)
         maxl = 5 if tier == 'quick' else 7
@@ -720,7 +753,7 @@ class C10(Prop):
             return ['writer case did not produce output: %s' % (res['impl'][:1],)]
         t = res['case'].split(' ')
         seq = bytes.fromhex(t[2]) if t[2] != '-' else b''
-        w = int(t[4])
+        w = len(seq) + 1 if t[4] in ('M', 'H') else int(t[4])
         f = wr_fields(res['impl'][0])
         # wrapped outputs: no sequence line longer than w, all but the last exactly w
         for k in ('wr', 'oww'):
@@ -1006,6 +1039,10 @@ class C12(Prop):
                     lines.append(b'>' + h)
                     for _ in range(rng.choice([0, 1, 2, 3])):
                         lines.append(rnd_seq(rng, rng.choice([0, 1, 3, 5])).replace(b'*', b'A'))
+            if f == 'fq' and rng.chance(1, 3):
+                # up to two blank lines after the last record are accepted by the FASTQ reader (tests/fastq.rs
+                # test_fastq_empty_lines_end), so such a file is well-formed in either rendering
+                lines += [b''] * rng.range(1, 2)
             variants = [('lf', [b'\n'] * len(lines)), ('crlf', [b'\r\n'] * len(lines))]
             if f == 'fa':
                 variants.append(('mix', [rng.choice([b'\n', b'\r\n']) for _ in lines]))
@@ -1020,6 +1057,15 @@ class C12(Prop):
                         c = gen.mkcase(f, cap, text, gen.rnd_chunking(rng, len(text)), None, 'std', ['N'] * (nrec + 2))
                         self.group[c] = (gid, final, name)
                         out.append(c)
+                    # the same file read, then revisited through the positions the reader itself reported (the offsets
+                    # differ between the renderings, what is parsed there may not): last record first, then the others
+                    ops = ['N', 'P'] * nrec + ['N']
+                    for k in reversed(range(nrec)):
+                        ops += ['J%d' % k, 'N']
+                    ops += ['N'] * nrec
+                    c = gen.mkcase(f, rng.choice([3, 4, 5, 7]), text, gen.rnd_chunking(rng, len(text)), None, 'std', ops)
+                    self.group[c] = ((gid, 'seek'), final, name)
+                    out.append(c)
         return out
 
     def project(self, pl):
@@ -1079,7 +1125,8 @@ class C12(Prop):
         return ('well-formed files are generated as line lists and rendered with LF, CRLF, (FASTA) a random per-line mixture, each with and '
                 'without a terminator after the last line, at a small and a large capacity with random chunking; all renderings of one file '
                 'must give the same records (header, sequence lines / sequence, quality), the same line numbers, no error, and no CR in any '
-                'field; model/implementation traces are compared as well; non-trivial = at least one spec item')
+                'field; each rendering is also read to the end and revisited by seeking to the positions reported for its records (the '
+                'renderings must agree on what is parsed there); model/implementation traces are compared as well; non-trivial = at least one spec item')
 
 
 class C19(Prop):
@@ -1111,6 +1158,34 @@ class C19(Prop):
             L = 4 if tier == 'quick' else 6
             out += gen.exhaustive(f, L, ops_fn=lambda s: ['E0.2', 'Z0', 'E0.1', 'Z0', 'Q', 'S1', 'Z1'], chunks=[[]])
         return out
+
+    def extra(self, tier, rng, stats):
+        """one LARGE record set per format (> 64 KiB, the default buffer size of a reader): a (de)serialiser that goes
+        through a second reader or a fixed-size buffer loses records only at this size.  Implementation only (the
+        extracted model computes with unary numbers and is not run at this size); judged by the round-trip oracle."""
+        cases = []
+        for f in self.fmts:
+            recs = []
+            for i in range(900):
+                h = b'r%d d' % i
+                sq = rnd_seq(rng, 60 + rng.below(40)).replace(b'*', b'A')
+                recs.append((b'>' + h + b'\n' + sq[:50] + b'\n' + sq[50:] + b'\n') if f == 'fa'
+                            else (b'@' + h + b'\n' + sq + b'\n+\n' + bytes(73 for _ in sq) + b'\n'))
+            cases.append(gen.mkcase(f, 150000, b''.join(recs), None, None, 'std', ['S0', 'Z0']))
+        F = []
+        for r in vlib.run_cases(cases, self.id + '_large', model=False):
+            stats['evaluations'] += 1
+            bad = abnormal(r)
+            outs = [parse_line(l) for l in r['impl']]
+            if len(outs) < 2 or outs[0]['kind'] != 'set' or len(set_records(outs[0]['out']) or []) < 700:
+                bad.append('the large input was not read into one record set of at least 700 records')
+            elif outs[1]['out'] != outs[0]['out']:
+                bad.append('op#1 deserialised record set iterates differently from the set that was serialised (%d records instead of %d)'
+                           % (len(set_records(outs[1]['out']) or []), len(set_records(outs[0]['out']) or [])))
+            if bad:
+                r['noshrink'] = True
+                F.append((r, bad))
+        return F, {'large_record_set_cases': len(cases)}
 
     def project(self, pl):
         return full_proj(pl)
